@@ -1349,6 +1349,46 @@ def eval_anonymous(ctx, R):
     return True
 
 
+def eval_parallel_prefix(ctx, R):
+    """`parallel T(p)(a)`: the parallel flag is set on the call and nothing else about it changes (the named inputs and
+    their operators in particular)"""
+    import passeval
+    from finfun import S, Unsupported
+    from passeval import O, Panic, V
+
+    EIF = "program_structure/src/abstract_syntax_tree/expression_impl.rs"
+    EBF = "program_structure/src/abstract_syntax_tree/expression_builders.rs"
+    try:
+        w = passeval.PassWorld([AST, EBF, EIF], EBF)
+    except Exception:  # noqa: BLE001
+        return
+    key = ("Expression", "make_anonymous_parallel")
+    if key not in w.methods:
+        return ctx.missing(R, "Expression::make_anonymous_parallel")
+    fn = w.methods[key][0]
+    fields = {"meta": O("meta"), "id": "T", "params": ("L", (O("param"),)), "signals": ("L", (O("signal0"), O("signal1"))), "names": S("Some", ("L", (("T", (O("op0"), "a")), ("T", (O("op1"), "b"))))), "is_parallel": False}
+    node = V("Expression", "AnonymousComponent", **fields)
+    other = V("Expression", "Variable", meta=O("m"), name="x", access=("L", ()))
+    try:
+        res = w.call_fn(fn, [node])
+        res2 = w.call_fn(fn, [other])
+    except (Unsupported, Panic) as u:
+        return ctx.note("Expression::make_anonymous_parallel is outside the evaluator's subset (%s)" % u)
+    lost = []
+    if not (isinstance(res, tuple) and len(res) > 3 and res[0] == "V" and res[2] == "AnonymousComponent"):
+        lost.append("the result is not an anonymous component")
+    else:
+        for k_, v_ in fields.items():
+            if k_ == "is_parallel":
+                if res[3].get(k_) is not True:
+                    lost.append("the parallel flag is not set")
+            elif res[3].get(k_) is not v_ and res[3].get(k_) != v_:
+                lost.append("`%s` is %s" % (k_, "dropped" if res[3].get(k_) in (None, ("E", "Option", "None")) else "changed"))
+    if res2 is not other:
+        lost.append("another expression is not returned unchanged")
+    ctx.check(R, "anonymous/parallel-prefix-keeps-the-call", not lost, "; ".join(lost) or "`parallel` sets the flag; template, parameters, inputs and the named inputs with their operators are kept", site(EIF, fn))
+
+
 def rule_binding(ctx):
     R = "C18.4"
     ctx.rule(R, "anonymous-component inputs and outputs are bound in declaration order (never the sorted name maps); a named input takes the operator written next to its own name; the arity is checked; `_` targets consume their value; the grammar keeps every input name")
@@ -1382,6 +1422,7 @@ def rule_binding(ctx):
         return False
 
     decided_anon = eval_anonymous(ctx, R)
+    eval_parallel_prefix(ctx, R)
     for nm in (("inputs", "outputs") if not decided_anon else ()):
         vs = [v_ for v_ in le.values() if strip(v_)["k"] == "MethodCall" and strip(v_)["method"] == "get_declaration_" + nm]
         okd = len(vs) == 1 and is_template_lookup(strip(vs[0])["recv"])
